@@ -285,6 +285,11 @@ struct H
 #endif
   void verify(const char* after)
   {
+    for(int i = 1; i < 3; ++i)
+    {
+      struct F { H* h; int i; const char* after; void operator()() { h->cmp(*h->v[i], h->m[i], vf::fmt("x%d", i), after); } } f = {this, i, after};
+      VF_CHECK(vf::holds(f), "C09:XmlVariant:modified-in-place", "after %s: x%d changed although the operation was applied to x0 (value modified while another handle refers to it)", after, i);
+    }
     for(int i = 0; i < 3; ++i) cmp(*v[i], m[i], vf::fmt("x%d", i), after);
 #ifdef VF_INTERNALS
     std::map<const void*, int> cnt, refs;
